@@ -171,6 +171,61 @@ def _replay_chunk(args):
     return out
 
 
+def _slot_consumers(seed):
+    """float64 computations that read one of the two linalg dtype slots, run while only the OTHER slot is lowered to float32: the results
+    must keep float64 accuracy (no leak from one dtype slot to another at the places where the slots are consumed)"""
+    import warnings
+
+    from linear_operator import settings as S
+    from linear_operator.operators import (ConstantDiagLinearOperator, DenseLinearOperator, KroneckerProductAddedDiagLinearOperator,
+                                           KroneckerProductLinearOperator)
+
+    out = []
+    g = torch.Generator().manual_seed(1000 + seed)
+
+    def pd(k):
+        M = torch.randn(k, k, generator=g, dtype=torch.float64)
+        return M @ M.mT / k + torch.eye(k, dtype=torch.float64)
+
+    K1, K2, A = pd(3), pd(4), pd(6)
+    B = torch.randn(12, 2, generator=g, dtype=torch.float64)
+
+    def kron_solve():
+        op = KroneckerProductAddedDiagLinearOperator(KroneckerProductLinearOperator(DenseLinearOperator(K1), DenseLinearOperator(K2)),
+                                                     ConstantDiagLinearOperator(torch.tensor([0.7], dtype=torch.float64), 12))
+        with S.max_cholesky_size(0):
+            X = op.solve(B)
+        D = torch.kron(K1, K2) + 0.7 * torch.eye(12, dtype=torch.float64)
+        return float((D @ X - B).abs().max() / B.abs().max())
+
+    def dense_eigh():
+        w, V = DenseLinearOperator(A).eigh()
+        V = V.to_dense() if hasattr(V, "to_dense") else V
+        return float(((V * w.unsqueeze(-2)) @ V.mT - A).abs().max() / A.abs().max())
+
+    def dense_chol():
+        L = DenseLinearOperator(A).cholesky().to_dense()
+        return float((L @ L.mT - A).abs().max() / A.abs().max())
+
+    with warnings.catch_warnings():
+        warnings.simplefilter("ignore")
+        for name, f, slot in (("KroneckerProductAddedDiag.solve", kron_solve, "symeig"), ("DenseLinearOperator.eigh", dense_eigh, "symeig"),
+                              ("DenseLinearOperator.cholesky", dense_chol, "cholesky")):
+            other = dict(cholesky=torch.float32) if slot == "symeig" else dict(symeig=torch.float32)
+            try:
+                with S.linalg_dtypes(default=torch.float64, **other):
+                    err = f()
+            except Exception as e:  # noqa
+                from ..replay import exc_summary
+
+                out.append((name, "%s under linalg_dtypes(%s): raised %s" % (name, other, exc_summary(e))))
+                continue
+            if not err <= 1e-10:
+                out.append((name, "%s reads the %s slot, but with only the other slot lowered (linalg_dtypes(%s)) its float64 result has relative "
+                                  "error %.3g" % (name, slot, ", ".join("%s=float32" % k for k in other), err)))
+    return out
+
+
 def run(tier, seed):
     res = core.Result(PROP, tier, seed)
     depth = 5 if tier == "quick" else 6
@@ -225,6 +280,9 @@ def run(tier, seed):
             res.violation(_sig(hist, min(i, len(hist) - 1)), "history %s [%s]: step %d: %s" % (
                 [(e["act"], e["ctx"], e["obj"]["cls"], e["obj"]["a"], e["obj"]["b"], e["obj"]["c"]) for e in hist], bname, i, msg),
                 dict(history=hist, binding_base=seed + j))
+    # ---- use sites of the two linalg dtype slots: a computation that reads the symeig slot must not feel the cholesky slot (and vice versa)
+    for name, msg in _slot_consumers(seed):
+        res.violation("%s|consumer|%s|other-dtype-slot-changes-the-result" % (PROP, name), msg, dict(consumer=name, history=[]))
     for h in hists:
         res.nontrivial.add("".join(e["act"][0] + str(e["ctx"]) + e["obj"]["cls"] for e in h))
     res.samples = [[dict(act=e["act"], ctx=e["ctx"], cls=e["obj"]["cls"], args=[e["obj"]["a"], e["obj"]["b"], e["obj"]["c"]], expect=e["expect"])
@@ -239,6 +297,15 @@ def run(tier, seed):
 
 
 def replay(rec, path):
+    if rec.get("consumer"):
+        bad = [m for n, m in _slot_consumers(0) if n == rec["consumer"]]
+        for m in bad:
+            print("  " + m)
+        if bad:
+            print("VIOLATION property=%s replay=%s" % (PROP, path))
+            return 1
+        print("consumer now unaffected by the other dtype slot")
+        return 0
     f = replay_history(rec["history"], Binding(rec.get("binding_base", 0),
                                                any(e["act"] == "construct" and e["obj"]["cls"] in ("CF", "CV") for e in rec["history"])))
     if f:
